@@ -182,6 +182,26 @@ def run(tier, seed, vh, only_paths=None, mode=None):
         sig.pop("mode", None)
         out_f.append({"props": props, "trace": tr, "step": t[3], "mode": t[4], "op": t[5], "what": t[6], "sig": sig,
                       "expected": t[7], "observed": t[8], "ops": cases[idx]})
+    # randomised stress with real parallelism (no gates), validated by SeqTrace!Stress
+    if only_paths is None:
+        strace = os.path.join(run, "stress.ndjson")
+        nstress = 24 if tier == "quick" else 400
+        rc, out = sh([vh, "stress", "-out", strace, "-n", str(nstress), "-seed", str(seed), "-scratch", os.path.join(run, "buckets")], timeout=3600)
+        m2 = re.search(r"STRESS runs=(\d+) lines=(\d+)", out)
+        if not m2:
+            raise Inconclusive("stress driver failed:\n" + out[-1500:])
+        json.dump({"b0": {"k": "none", "o": {"a": "-", "n": "-", "n.x": "-", "v": "-"}, "r": [], "n": 0},
+                   "b1": {"k": "nomacro", "o": {"a": "-", "n": "-", "n.x": "-", "v": "-"}, "r": [], "n": 0}}, open(strace + ".bodies.json", "w"))
+        sfails, sdistinct = fam_seq.validate(run, strace)
+        if sdistinct - 1 != int(m2.group(2)):
+            raise Inconclusive("stress validation consumed %d of %s lines" % (sdistinct - 1, m2.group(2)))
+        for t in sfails:
+            out_f.append({"props": t[1]["$set"], "trace": t[2], "step": t[3], "mode": t[4], "op": "stress", "what": t[6],
+                          "sig": {"op": "stress", "kind": str(t[6][0])}, "expected": t[7], "observed": str(t[8])[:400],
+                          "ops": {"name": "stress", "procs": [], "schedule": [], "seed": seed, "run": t[2]}})
+        res["stress_runs"] = int(m2.group(1))
+        res["traces"] += int(m2.group(1))
+        res["lines"] += int(m2.group(2))
     res["fails"] = out_f
     res["steps"] = res["lines"]
     res["distinct_cases"] = len({json.dumps([c["procs"], c["schedule"]], sort_keys=True) for c in cases})
